@@ -32,7 +32,13 @@ HS = "std::collections::HashSet"
 
 def run(ctx):
     from .common import check_new_writers
-    check_new_writers(ctx, "R01-new-writers", ['filters::bloomfilter::BloomFilter', 'filters::cuckoofilter::CuckooFilter', 'filters::quotientfilter::QuotientFilter'])
+    def _only_sets_bits(adt_, fld_, w_):
+        # a Bloom filter bit that is only ever OR-ed in can never turn a stored element into a false negative
+        if adt_ == "filters::bloomfilter::BloomFilter" and fld_ == "bs":
+            from .C06 import classify_write
+            return classify_write(adt_, fld_, w_, ctx)[0] == "or"
+        return False
+    check_new_writers(ctx, "R01-new-writers", ['filters::bloomfilter::BloomFilter', 'filters::cuckoofilter::CuckooFilter', 'filters::quotientfilter::QuotientFilter'], harmless=_only_sets_bits)
     prog = ctx.prog
     selfp = ("param", 1, "self")
 
